@@ -1455,6 +1455,11 @@ fn wake_send_waiters<T>(waiters: &mut LinkedList<SendWaitQueueEntry<T>>) {''',
      'expect': {'C08': ['C08.R2'], 'C11': ['C11.R5']}},
     {'name': 'seed-try-receive-all-wakes-instead-of-refill', 'patch': 'seeded/C09-try-receive-all-wakes-senders-instead-of-refilling/patch.diff',
      'expect': {'C09': ['C09.R2']}},
+    # a bug on top of an independent refactoring (private outcome enums, split arms): the rules must still see it
+    {'name': 'composed-RF38-notified-requeue-reports-acquired', 'patch': 'selftest/composed/RF38-notified-requeue-reports-acquired.diff',
+     'expect': {'C02': ['C02.R1', 'C02.R2'], 'C01': ['C01.I3']}},
+    {'name': 'composed-RF39-notified-requeue-without-wakeup', 'patch': 'selftest/composed/RF39-notified-requeue-without-wakeup.diff',
+     'expect': {'C06': ['C06.R4']}},
     {'name': 'seed-first-poll-enqueues-under-second-lock', 'patch': 'seeded/C06-first-poll-enqueues-under-second-lock/patch.diff',
      'expect': {'C06': ['C06.W'], 'C05': ['C05.W']}},
 ]
@@ -1780,6 +1785,13 @@ impl<'a, MutexType, T> FusedFuture for ChannelReceiveFuture<'a, MutexType, T> {'
     {'name': 'benign-feature-RF35-state-broadcast-send-replace', 'props': ALLP + ['C16'], 'patch': 'benign/RF35/patch.diff'},
     {'name': 'benign-feature-RF36-timer-reset', 'props': ALLP + ['C16'], 'patch': 'benign/RF36/patch.diff'},
     {'name': 'benign-refactor-RF37-event-set-looks-first', 'props': ALLP + ['C16'], 'patch': 'benign/RF37/patch.diff'},
+    {'name': 'benign-refactor-RF38-mutex-5', 'props': ALLP + ['C16'], 'patch': 'benign/RF38/patch.diff'},
+    {'name': 'benign-refactor-RF39-semaphore-5', 'props': ALLP + ['C16'], 'patch': 'benign/RF39/patch.diff'},
+    {'name': 'benign-refactor-RF40-event-timer-5', 'props': ALLP + ['C16'], 'patch': 'benign/RF40/patch.diff'},
+    {'name': 'benign-refactor-RF41-mpmc-5', 'props': ALLP + ['C16'], 'patch': 'benign/RF41/patch.diff'},
+    {'name': 'benign-refactor-RF42-oneshots-5', 'props': ALLP + ['C16'], 'patch': 'benign/RF42/patch.diff'},
+    {'name': 'benign-refactor-RF43-state-broadcast-futures-5', 'props': ALLP + ['C16'], 'patch': 'benign/RF43/patch.diff'},
+    {'name': 'benign-refactor-RF44-containers-5', 'props': ALLP + ['C16'], 'patch': 'benign/RF44/patch.diff'},
     {'name': 'benign-unrelated-additions', 'props': ALLP, 'edits': [
         {'file': 'src/sync/semaphore.rs',
          'old': '''    /// Returns the amount of permits that are available on the semaphore
